@@ -36,20 +36,44 @@ static void sym(std::vector<T>& v) {
   for (unsigned i = 0; i < MAXN; i++) v.data()[i] = nd<T>();
 }
 
+// VF_DEEP: the two mandatory arrays have the minimal sizes that pass the
+// size gates (4 vertices x 3 properties, 4 triangles) as CONSTANT lengths, so
+// that the deep part of the ladder (merge map, run table, tangents, triangle
+// loop) is reached with small constant-size blocks; contents stay arbitrary.
+// Without VF_DEEP every length is symbolic but small (the early gates).
+template <typename T, unsigned N>
+static void fixedvec(std::vector<T>& v) {
+  vf_mkvec(v, N, N);
+  for (unsigned i = 0; i < N; i++) v.data()[i] = nd<T>();
+}
 template <typename P, typename I>
 static void ingest() {
   MeshGLP<P, I> m;
-  m.numProp = nd<I>();
-  sym<P, VF_LV>(m.vertProperties);
-  sym<I, VF_LT>(m.triVerts);
+#ifdef VF_DEEP
+  m.numProp = 3;
+  fixedvec<P, 12>(m.vertProperties);
+  fixedvec<I, 12>(m.triVerts);
   sym<I, VF_L>(m.mergeFromVert);
   sym<I, VF_L>(m.mergeToVert);
   sym<I, VF_L>(m.runIndex);
-  sym<uint32_t, VF_L>(m.runOriginalID);
+  sym<uint32_t, 2>(m.runOriginalID);
   sym<P, 12>(m.runTransform);
-  sym<uint8_t, VF_L>(m.runFlags);
+  sym<uint8_t, 2>(m.runFlags);
   sym<I, 4>(m.faceID);
-  sym<P, 8>(m.halfedgeTangent);
+  sym<P, 4>(m.halfedgeTangent);
+#else
+  m.numProp = nd<I>();
+  sym<P, 4>(m.vertProperties);
+  sym<I, 3>(m.triVerts);
+  sym<I, 1>(m.mergeFromVert);
+  sym<I, 1>(m.mergeToVert);
+  sym<I, 1>(m.runIndex);
+  sym<uint32_t, 1>(m.runOriginalID);
+  sym<P, 1>(m.runTransform);
+  sym<uint8_t, 1>(m.runFlags);
+  sym<I, 1>(m.faceID);
+  sym<P, 1>(m.halfedgeTangent);
+#endif
   m.tolerance = nd<P>();
 #ifdef VF_EXCLUDE_KNOWN
   VF_EXCLUDE_KNOWN
